@@ -54,6 +54,25 @@ def gen_spec(rng):
             mentioned |= set(roots)
         using = [g["name"] for g in spec["groups"] if rng.random() < 0.6]
         systems.append({"name": f"sy{si}", "using": using, "rules": rules})
+    # one more system whose rules interact: the new base unit of one rule mentions a root unit that another rule
+    # of the same system replaces (e.g. centimeter for meter next to dyne for gram)
+    if rng.random() < 0.15:
+        scaled = [d for d in derived if len(table.root_of_unit(d["name"])[1]) == 1
+                  and list(table.root_of_unit(d["name"])[1].values()) == [1]]
+        rng.shuffle(scaled)
+        for d1 in scaled:
+            (dim1, _), = table.root_of_unit(d1["name"])[1].items()
+            r1 = bod[dim1]
+            seconds = []
+            for d2 in derived:
+                roots2 = {bod[dim]: e for dim, e in table.root_of_unit(d2["name"])[1].items()}
+                if r1 in roots2:
+                    seconds += [(d2["name"], r2) for r2, e in roots2.items() if r2 != r1 and abs(e) == 1]
+            if seconds:
+                d2, r2 = rng.choice(seconds)
+                systems.append({"name": f"sy{len(systems)}", "using": [g["name"] for g in spec["groups"] if rng.random() < 0.6],
+                                "rules": [[d1["name"], r1], [d2, r2]], "interacting": True})
+                break
     spec["systems"] = systems
     for sy in systems:  # "<system>_<unit>" is that system's variant of the unit (ureg.sys.<system>.<unit>)
         if rng.random() < 0.5 and derived:
@@ -272,6 +291,11 @@ class GroupModel:
         dest = {k: int(v) for k, v in dest.items()}
         fd, _ = self.table.root(dest)
         return f / fd, dest
+
+    def interacting(self, s):
+        """Does the new unit of one rule mention a root unit that another rule of the system replaces?"""
+        sub = self.substitution(s)
+        return any(o in sub for old, m in sub.items() for o in m if o != old)
 
     def allowed_units(self, s):
         """names that may appear in a base-unit result under system s."""
@@ -572,6 +596,17 @@ class _Run:
         ok = core.num_close(norm_num(gf), norm_num(ef)) and \
             sorted((n, norm_num(e)) for n, e in gunits.items()) == sorted((n, norm_num(e)) for n, e in eunits.items())
         allowed = model.allowed_units(system)
+        left = set(gunits) - allowed
+        if ok and left and system is not None and left <= set(model.substitution(system)) and model.interacting(system):
+            # exactly the recorded shape of finding R35: value and dimension are right, but a root unit that the
+            # system replaces is left over because the replacement is made in one pass
+            if "R35" in core.open_findings():
+                self.col.probe("known_finding:R35")
+                return "known:R35"
+            raise Violation("C14.base", s["id"], {
+                "form": form, "x": s["x"], "u": s["u"], "system": system, "shape": "replaced-root-left",
+                "got": [norm_num(gf), sorted((n, norm_num(e)) for n, e in gunits.items())],
+                "left_over": sorted(left), "rules": model.systems[system]["rules"]})
         if not ok or not set(gunits) <= allowed:
             raise Violation("C14.base", s["id"], {
                 "form": form, "x": s["x"], "u": s["u"], "system": system,
@@ -896,6 +931,8 @@ class _Run:
         d = v.detail
         if v.rule in ("C14.members", "C14.sysmembers"):
             return f"{v.rule}/{d.get('when')}/{'missing' if d.get('missing') else ''}{'unexpected' if d.get('unexpected') else ''}"
+        if v.rule == "C14.base" and d.get("shape"):
+            return f"{v.rule}/interacting-rules/{d['shape']}"
         if v.rule == "C14.base":
             g = d.get("got")
             return f"{v.rule}/{d.get('form')}/{'exc' if g and g[0] == 'exc' else 'value'}"
